@@ -173,6 +173,10 @@ pub fn frame_case_strategy(tier: Tier) -> impl Strategy<Value = FrameCase> {
         Tier::Quick => (1u32 << 20, 22, 12u8, 2000usize, false),
         Tier::Thorough => (1u32 << 23, 27, 17u8, 40_000usize, true),
     };
+    frame_case_custom(max_len, max_wlog, max_exp, max_seqs, big)
+}
+
+pub fn frame_case_custom(max_len: u32, max_wlog: u32, max_exp: u8, max_seqs: usize, big: bool) -> impl Strategy<Value = FrameCase> {
     prop_oneof![
         12 => (data_strategy(max_len), refcfg_strategy(max_wlog)).prop_map(|(data, cfg)| FrameCase::Ref { data, cfg }),
         3 => (data_strategy(max_len.min(1 << 19)), prop_oneof![1i32..=5, 1i32..=19], 0u8..=3, 0u8..=40, prop_oneof![Just(0u32), 10u32..=20], any::<bool>())
